@@ -279,7 +279,7 @@ var c16KindNames = map[protocol.CompletionItemKind]string{
 // in order, the (common) edit range and filter text, and `ok` = every item-wise invariant the
 // model takes for granted (uniform kind / range / filterText, newText = insertText or label,
 // sortText = position and label, IsIncomplete).  Date items depend on time.Now(): kind only.
-func c16Observe(l *protocol.CompletionList, ln int) map[string]any {
+func c16Observe(l *protocol.CompletionList, ln int, dc *c16Detail) map[string]any {
 	out := map[string]any{"ctx": "none", "r": nil, "f": nil, "items": []string{}, "ok": true}
 	if l == nil {
 		out["ok"] = false
@@ -306,6 +306,9 @@ func c16Observe(l *protocol.CompletionList, ln int) map[string]any {
 		}
 		labels = append(labels, it.Label)
 		if it.FilterText != first.FilterText {
+			ok = false
+		}
+		if dc != nil && !dc.ok(kind, it.Label, it.Detail) {
 			ok = false
 		}
 		if it.SortText != fmt.Sprintf("%06d_%s", i, it.Label) {
@@ -344,7 +347,34 @@ func c16Observe(l *protocol.CompletionList, ln int) map[string]any {
 	return out
 }
 
-func c16Complete(srv *server.Server, uri protocol.DocumentURI, ln, ch int, trig string) map[string]any {
+// c16Detail checks the `detail` string against the usage counts (showCounts on / off).
+type c16Detail struct {
+	res  *analyzer.AnalysisResult
+	show bool
+}
+
+func (d *c16Detail) ok(kind, label, detail string) bool {
+	var base string
+	var counts map[string]int
+	switch kind {
+	case "account":
+		base, counts = "Account", d.res.AccountCounts
+	case "payee":
+		base, counts = "Payee", d.res.PayeeCounts
+	case "commodity":
+		base, counts = "Commodity", d.res.CommodityCounts
+	case "tagName":
+		base, counts = "Tag", d.res.TagCounts
+	default:
+		return true
+	}
+	if d.show && counts[label] > 0 {
+		return detail == fmt.Sprintf("%s (%d)", base, counts[label])
+	}
+	return detail == base
+}
+
+func c16Complete(srv *server.Server, uri protocol.DocumentURI, ln, ch int, trig string, dc *c16Detail) map[string]any {
 	p := &protocol.CompletionParams{TextDocumentPositionParams: protocol.TextDocumentPositionParams{
 		TextDocument: protocol.TextDocumentIdentifier{URI: uri},
 		Position:     protocol.Position{Line: uint32(ln), Character: uint32(ch)}}}
@@ -355,7 +385,20 @@ func c16Complete(srv *server.Server, uri protocol.DocumentURI, ln, ch int, trig 
 	if err != nil {
 		return map[string]any{"ctx": "error", "r": nil, "f": nil, "items": []string{}, "ok": false}
 	}
-	return c16Observe(l, ln)
+	return c16Observe(l, ln, dc)
+}
+
+func c16CountAnswer(c *Ctx, o map[string]any, max int) {
+	items, _ := o["items"].([]string)
+	kind, _ := o["ctx"].(string)
+	c.Count("answer." + kind)
+	switch {
+	case kind == "date" || kind == "none":
+	case max > 0 && len(items) >= max:
+		c.Count("answer.at-limit")
+	default:
+		c.Count("answer.below-limit")
+	}
 }
 
 func c16LineOf(doc string, ln int) string {
@@ -370,14 +413,18 @@ func c16RunComplete(c *Ctx, cs c16Case) map[string]any {
 	srv, uri := c16Server(c, cs, cs.Max)
 	f := cs.fields()
 	f["line"] = c16LineOf(cs.Doc, cs.Ln)
-	f["tab"] = c16Table(c16Analysis(srv, uri, cs.Doc))
+	res := c16Analysis(srv, uri, cs.Doc)
+	f["tab"] = c16Table(res)
+	dc := &c16Detail{res, cs.Counts}
 	impl := []any{}
 	for i, ch := range cs.Chs {
 		tr := ""
 		if i < len(cs.Trs) {
 			tr = cs.Trs[i]
 		}
-		impl = append(impl, c16Complete(srv, uri, cs.Ln, ch, tr))
+		o := c16Complete(srv, uri, cs.Ln, ch, tr, dc)
+		c16CountAnswer(c, o, cs.Max)
+		impl = append(impl, o)
 	}
 	f["impl"] = impl
 	return f
@@ -395,8 +442,8 @@ func c16RunPair(c *Ctx, cs c16Case, max2 int) map[string]any {
 		tr = cs.Trs[0]
 	}
 	// the smaller limit is asked of both servers, the larger of the second one
-	a := c16Complete(srv1, uri1, cs.Ln, cs.Chs[0], tr)
-	b := c16Complete(srv2, uri2, cs.Ln, cs.Chs[0], tr)
+	a := c16Complete(srv1, uri1, cs.Ln, cs.Chs[0], tr, nil)
+	b := c16Complete(srv2, uri2, cs.Ln, cs.Chs[0], tr, nil)
 	f["impl"] = []any{a, b}
 	return f
 }
@@ -475,7 +522,7 @@ var (
 	c16Tags             = []string{"cat", "Category", "project", "trip-2024", "t_1", "date", "client", "CAT", "c", "pro", "x-y"}
 	c16TagValues        = []string{"food", "a b", "2024-01-05", "x", "10:30", "", "Клиент"}
 	c16Numbers          = []string{"1", "10", "-5.50", "1,000.00", "+3", "0.5", "1.000,5", "12_000", "-7"}
-	c16GarbageRunes     = []rune("zqZ9:-_ .()[]*!;@=|\t€ж中😀𐐀é")
+	c16GarbageRunes     = []rune("zqZ9:-_ .()[]*!;@=|\t€ж中😀𐐀é\u00a0\u3000")
 )
 
 type c16Gen struct {
@@ -1087,7 +1134,15 @@ func genC16(c *Ctx) {
 		g := c16NewGen(c)
 		labels := append([]string{}, g.accounts...)
 		if r.IntN(3) == 0 {
-			labels = append(labels, g.payees...)
+			for _, p := range g.payees {
+				dup := false
+				for _, l := range labels {
+					dup = dup || l == p
+				}
+				if !dup { // labels are unique in every list the server ranks
+					labels = append(labels, p)
+				}
+			}
 		}
 		q := g.fragment(pick(r, labels))
 		if r.IntN(5) == 0 {
@@ -1126,7 +1181,7 @@ func genC16(c *Ctx) {
 		c.Emit("c16.range", c16RangeCase(line, trs))
 	}
 	// --- the real Completion request
-	for i := 0; i < c.N(2400, 40000); i++ {
+	for i := 0; i < c.N(4000, 40000); i++ {
 		g := c16NewGen(c)
 		f := g.focusLine()
 		doc, ln := g.docWithFocus(f, 1+r.IntN(5))
